@@ -276,6 +276,8 @@ func (w *World) checkQuiescentInvariants() {
 		}
 		n.lastSample, n.lastSampleEpoch = cur, n.epoch
 	}
+	w.checkGates()
+	w.checkSyncs()
 }
 
 func (w *World) finalChecks() {}
@@ -300,6 +302,12 @@ func (w *World) onSendObserved(n *Node, s *SentRec) {
 	}
 	if w.checks("C10") {
 		w.checkC10(n, s, m, h, v)
+	}
+	if w.checks("C14") {
+		w.checkSyncedRoundNotLed(n, s)
+	}
+	if w.checks("C15") {
+		w.checkLateProposal(n, s)
 	}
 	if w.checks("C09") {
 		w.checkC09(n, s, m, h, v)
@@ -929,8 +937,6 @@ func (w *World) onBubbleLeak(msg string) {
 	w.violate("C16", "goroutine-leak", "goroutines of the library are still blocked after shutdown: %s", firstLine(msg))
 }
 
-func (w *World) preSync(n *Node, th uint64)                                                 {}
-func (w *World) postSync(n *Node, th uint64, before hv, err error)                          {}
 func (w *World) onGenuineProofRejected(n *Node, sb *StoredBlock, th uint64, err error) {
 	w.violate("C03", "genuine-proof-rejected-on-sync", "n%d rejects the committed pair of h%d obtained from a correct peer: %v", n.idx, th, err)
 }
